@@ -35,6 +35,17 @@ func Shortest(p1, p2 P, rects []Rect) []P {
 
 	// find list of diagonals that the path has to cross
 	dlist := crossedDiagonals(start.ID, end.ID, adj, map[int]bool{})
+	// a point lying on a diagonal belongs to the triangles on both of its sides: the path doesn't have to cross
+	// the diagonals that the start point or the end point lies on
+	for len(dlist) > 0 && dlist[0].contains(p1) {
+		dlist = dlist[1:]
+	}
+	for len(dlist) > 0 && dlist[len(dlist)-1].contains(p2) {
+		dlist = dlist[:len(dlist)-1]
+	}
+	if len(dlist) == 0 {
+		return []P{p2, p1}
+	}
 
 	// append the last diagonal that has p2 as endpoint, it doesn't matter by which endpoint it's connected
 	dlist = append(dlist, &Segment{dlist[len(dlist)-1].A, p2})
